@@ -419,6 +419,7 @@ def run(repo, rep, tier):
 
     _order_and_text_rules(repo, rep, tp)
     _linearity(repo, rep)
+    _null_vs_empty(repo, rep, tp)
 
 
 REORDER_FUNCS = {'sorted', 'reversed', 'set', 'frozenset'}
@@ -697,3 +698,67 @@ def _linearity(repo, rep):
         rr.ob(i >= len(bad), 'node-%d' % i)
     for file, func, construct, fact, line, msg in finds:
         rep.finding(rr, func, construct, fact, file, line, msg)
+
+
+def _null_vs_empty(repo, rep, tp):
+    """C01.R11: on the read path a CIM *value* (the result of unpack_value /
+    parse_value_array / parse_embeddedObject / a VALUE* child, or the value
+    parameter of parse_embeddedObject) is compared with None by identity:
+    a truthiness test also catches the empty array [] and the empty string,
+    which then come back as NULL."""
+    r = rep.rule('C01.R11', 'NULL is distinguished from the empty array / '
+                 'empty string by `is None`, not by truthiness')
+    producers = ('self.unpack_value', 'self.parse_value_array',
+                 'self.parse_embeddedObject', 'self.unpack_single_value',
+                 'self.parse_value_refarray')
+    for name, f in tp.methods.items():
+        vals = set()
+        if name == 'parse_embeddedObject':
+            vals.update(p for p in f.params[1:2])
+        for n in walk_no_nested(f.node):
+            if isinstance(n, ast.Assign) and len(n.targets) == 1 and \
+                    isinstance(n.targets[0], ast.Name) and \
+                    isinstance(n.value, ast.Call):
+                d = dotted(n.value.func) or ''
+                if d in producers:
+                    vals.add(n.targets[0].id)
+                elif d in ('self.one_child', 'self.optional_child') and \
+                        'VALUE.ARRAY' in norm(n.value, 400):
+                    vals.add(n.targets[0].id)
+        if not vals:
+            continue
+        r.functions.add(f.fq)
+
+        def truth_uses(t, out):
+            if isinstance(t, ast.BoolOp):
+                for v in t.values:
+                    truth_uses(v, out)
+            elif isinstance(t, ast.UnaryOp) and isinstance(t.op, ast.Not):
+                truth_uses(t.operand, out)
+            elif isinstance(t, ast.Name) and t.id in vals:
+                out.append(t)
+        for n in walk_no_nested(f.node):
+            tests = []
+            if isinstance(n, (ast.If, ast.While, ast.IfExp, ast.Assert)):
+                tests.append(n.test)
+            elif isinstance(n, ast.BoolOp):
+                tests.append(n)
+            for t in tests:
+                uses = []
+                truth_uses(t, uses)
+                for u in uses:
+                    rep.finding(r, f.qualname, norm(t, 60),
+                                'truthiness-of-value', X.TP, u.lineno,
+                                'the CIM value %s is tested by truthiness: '
+                                'an empty array (<VALUE.ARRAY/>) or empty '
+                                'string is treated like NULL and does not '
+                                'survive the wire format' % u.id)
+            if isinstance(n, ast.Compare) and len(n.ops) == 1 and \
+                    isinstance(n.ops[0], (ast.Is, ast.IsNot)) and \
+                    isinstance(n.left, ast.Name) and n.left.id in vals:
+                r.sites += 1
+                r.ob(True, '%s|%s' % (f.qualname, norm(n)),
+                     {'function': f.qualname, 'test': norm(n)})
+    if r.sites < 1 and not r.findings:
+        raise AnalysisError('no `is None` test of a parsed CIM value found '
+                            '(anchor of C01.R11)')
